@@ -60,6 +60,14 @@ def gen(ctx):
         seen.add(key)
         out.append({"id": len(out), "cfg": cfg, "steps": [s for s in h if s["act"] == "step"], "expect": h[-1]})
     ctx.extra["design_level"] = design
+    # model-independent schedules (see vf.blind_schedules)
+    nb = 400 if ctx.tier == "quick" else 6000
+    for si, (prods, wanted, cancel) in enumerate(scs):
+        threads = sorted(prods) + ["cons"] + (["cancel"] if cancel else [])
+        for seq in vf.blind_schedules(ctx.rng, threads, nb, 10 + 5 * len(threads)):
+            out.append({"id": len(out), "cfg": {"producers": prods, "wanted": wanted, "cancel": cancel, "model": "blind", "scen": si + 1},
+                        "steps": [{"act": "step", "d": t} for t in seq], "expect": {}})
+    ctx.extra["blind_schedules"] = nb * len(scs)
     return out
 
 
